@@ -89,8 +89,14 @@ def check(ctx, src):
     w = cp.func("HyASTCompiler.warn_on_core_shadow")
     ctx.require(w is not None, "warn_on_core_shadow not found")
     t = flat(w)
-    ctx.check("mangle(name) in getattr(builtins, '_hy_macros', {}) and self.get_local_option('warn_on_core_shadow', True)" in t and "warnings.warn(" in t and "RuntimeWarning" in t, "MAC-WARN", f"{CP}|warn_on_core_shadow|test",
-              "the warning must test the mangled name against the core macros and honour the pragma", CP, w.lineno, witness="(defmacro do-mac [] 1) does not warn (its core name is do_mac)", detail="mangle(name) in builtins._hy_macros and option")
+    wc = [c for c in pyq.calls(w) if dotted(c.func) == "warnings.warn"]
+    if len(wc) != 1:
+        ctx.unres("MAC-WARN", f"{CP}|warn_on_core_shadow|test", "the warning call was not recognised")
+    else:
+        at = sorted(str(a) for a in pyq.atoms(wc[0], w))
+        ctx.decide("MAC-WARN", f"{CP}|warn_on_core_shadow|test", at == sorted(["mangle(name) in getattr(builtins, '_hy_macros', {})", "self.get_local_option('warn_on_core_shadow', True)"]),
+                   f"the warning is issued under {at}; it must test the mangled name against the core macros and honour the pragma", CP, w.lineno,
+                   witness="(defmacro do-mac [] 1) does not warn (its core name is do_mac)", detail="mangle(name) in builtins._hy_macros and option")
     ctx.check(pyq.contains(md, lambda n: isinstance(n, ast.Call) and norm(n) == "compiler.warn_on_core_shadow(name)") is not None, "MAC-WARN", f"{R}|compile_macro_def|warns", "defmacro does not warn about shadowing a core macro", R, md.lineno, detail="warn_on_core_shadow(name)")
     tr = flat(rf)
     wcall = pyq.contains(rf, lambda n: isinstance(n, ast.Call) and dotted(n.func) == "compiler.warn_on_core_shadow")
